@@ -1,2 +1,32 @@
-/- C15 — property theorems (to be added); model: -/
-import E57.Model.Writer
+/-
+C15 — an interrupted write is never mistaken for a complete file (model level).
+Theorems in `E57/Proofs/Interrupted.lean`, namespace `E57.Interrupt`:
+
+ * `reach_safe`, `reach_xml_fields_zero`  invariant over ALL writer sessions before the top-level
+   finalize (new, register_extension, root setters, add_blob, point-cloud new/add_point/finalize,
+   image operations, abandoned sub-writers): the logical bytes [24,40) (XML offset, XML length)
+   stay zero, and so do they in every page-0 content that reaches the device.
+ * `run_data`  the write log defined for the page writer replays to the device content (the log is
+   faithful), `reach_crashSafe`: every crash image (first k device writes complete, the next one
+   cut at any byte) has an unfinalized header.
+ * `open_rejects_unfinalized` / `open_unfinalized_iff`  the reader rejects every device content
+   whose header is missing, incomplete or has XML length 0 — under the hypothesis `RejectsEmpty`
+   on the external XML parser (it yields no usable document for the empty text); the `iff` shows
+   the hypothesis cannot be weakened.
+ * `crash_image_rejected`  every crash image from before the top-level finalize is rejected.
+ * `killed_rejected`, `dropped_rejected`, `dropped_log_crashSafe`  a writer that is killed or
+   dropped without finalize (the drop flushes once more) leaves a rejected device, also for every
+   torn image of that last flush.
+ * `finalize_log`, `finalize_crash`  the log of the top-level finalize: everything before the write
+   of the new page 0 is rejected; after it the image equals the final device.
+ * torn header write: `tornHeader_early` (cut ≤ 32: rejected), `tornHeader_mid` (33..39: the XML
+   length is truncated), `tornHeader_late` / `tornHeader_late_opens` (cut ≥ 40: all payload bytes
+   are final, only the page-0 checksum may be old; the opened view equals the complete file's),
+   `tornHeader_newLength`.
+ * `torn_header_rejected_statement_false`  "a mid-header-write image that differs from the final
+   file is rejected" is FALSE (cut 40..1023: final header over the old page-0 checksum; the
+   reader reads the header raw).  The property itself only demands that an accepted image shows
+   the completed file's content or errors, which is what `tornHeader_late_opens` gives.
+ * non-vacuity: `ex_session`, `exCheck_true`, `ex_finalize`, `finalize_succeeds`.
+-/
+import E57.Proofs.Interrupted
